@@ -187,9 +187,11 @@ impl ContextualLookupBuilder<SubstitutionLookup> {
         let (lookup, id) = self.find_or_create_anon_lookup(
             |existing| match existing {
                 SubstitutionLookup::Single(subtables) => subtables.subtables.iter().all(|subt| {
+                    // pair up the glyphs exactly as they are inserted below: for a
+                    // class -> glyph rule the one replacement applies to every target
                     target
                         .iter()
-                        .zip(replacement.iter())
+                        .zip(replacement.clone().into_iter_for_target())
                         .all(|(a, b)| subt.can_add(a, b))
                 }),
                 _ => false,
